@@ -101,7 +101,6 @@ Example c13_flat_selection_example :
   codes (page_result_sel lib (mksel None None) true page) = [60; 120; 62; 32; 123; 123; 117; 124; 121; 125; 125]%N.
 Proof. split; vm_compute; reflexivity. Qed.
 
-(* BEGIN PINS (tools/repin.py) *)
 (* expand_parserfns = False: an #if call (plain condition) is not evaluated but emitted as written - name, condition without
    the blanks around it, the other arguments untouched (the calls in them are not expanded either), under every path *)
 Theorem c13_if_is_emitted_as_written_when_switched_off :
@@ -114,6 +113,15 @@ Theorem c13_if_is_emitted_as_written_when_switched_off :
 Proof. exact if_switched_off. Qed.
 Print Assumptions c13_if_is_emitted_as_written_when_switched_off.
 
+Example c13_if_switched_off_example :   (* {{#if: x |{{t}}| b}} with expand_parserfns off gives {{#if:x|{{t}}| b}}: the model run itself *)
+  let opts := mkopts false (mksel None None) false [] [] in
+  option_map render
+    (expand_T [] [mktpl [84] [Ch 84; Ch 84] false] opts 40 [FTitle] true
+              ((if_head ++ [Ch 32; Ch 120; Ch 32])%list :: [[T [[Ch 116]]]; [Ch 32; Ch 98]]))
+  = Some [123; 123; 35; 105; 102; 58; 120; 124; 123; 123; 116; 125; 125; 124; 32; 98; 125; 125]%N.
+Proof. vm_compute. reflexivity. Qed.
+
+(* BEGIN PINS (tools/repin.py) *)
 From WTP Require Import Gen.GenPins.
 Module Pins.
 Import String.
